@@ -630,3 +630,63 @@ def r09_13_unit_groups(ctx: Ctx) -> RuleResult:
                 else:
                     rr.ok()
     return rr
+
+
+# ------------------------------------------------------------------------------------------- R09.14 PeriodUnits composites
+
+
+@rule("C09")
+def r09_14_period_unit_sets(ctx: Ctx) -> RuleResult:
+    """PeriodUnits is a flag set; Period.between walks the single units that are in the requested set and leaves the rest of the
+    difference unreported.  The named combinations must contain exactly the units their documentation lists, or the default
+    `Period.between(ldt1, ldt2)` silently drops a remainder (start + between(start, end) != end)."""
+    from ..kit import eval_int_expr
+
+    rr = RuleResult("R09.14", "PeriodUnits: single units are distinct powers of two in declaration order and every named combination is exactly the documented union (ALL_* / DATE_AND_TIME / YEAR_MONTH_DAY / HOUR_MINUTE_SECOND)", min_instances=7)
+    M = ctx.M
+    c = M.cls("PeriodUnits")
+    env: dict[str, int] = {}
+    order: list[str] = []
+    for s in c.node.body:
+        if isinstance(s, ast.Assign) and len(s.targets) == 1 and isinstance(s.targets[0], ast.Name):
+            v = eval_int_expr(s.value, env, lambda e: None)
+            if v is None:
+                raise AnalysisError(f"PeriodUnits.{s.targets[0].id}: value not evaluable")
+            env[s.targets[0].id] = v
+            order.append(s.targets[0].id)
+    singles = [n for n in order if env[n] and env[n] & (env[n] - 1) == 0]
+    rr.inst()
+    if [env[n] for n in singles] == [1 << i for i in range(len(singles))] and len(singles) == 10:
+        rr.ok({"single units": singles})
+    else:
+        rr.fail(c.qual, f"single units are not 10 distinct consecutive powers of two in declaration order: {[(n, env[n]) for n in singles]}", f"{c.mod.rel}:{c.node.lineno}")
+    date_units = ["YEARS", "MONTHS", "WEEKS", "DAYS"]
+    time_units = ["HOURS", "MINUTES", "SECONDS", "MILLISECONDS", "TICKS", "NANOSECONDS"]
+
+    def union(names: list[str]) -> int:
+        out = 0
+        for n in names:
+            if n not in env:
+                raise AnalysisError(f"PeriodUnits.{n} missing")
+            out |= env[n]
+        return out
+
+    spec = {
+        "NONE": 0,
+        "ALL_DATE_UNITS": union(date_units),
+        "YEAR_MONTH_DAY": union(["YEARS", "MONTHS", "DAYS"]),
+        "HOUR_MINUTE_SECOND": union(["HOURS", "MINUTES", "SECONDS"]),
+        "ALL_TIME_UNITS": union(time_units),
+        "DATE_AND_TIME": union(["YEARS", "MONTHS", "DAYS"] + time_units),
+        "ALL_UNITS": union(date_units + time_units),
+    }
+    for name, want in spec.items():
+        rr.inst()
+        got = env.get(name)
+        if got == want:
+            rr.ok({name: got})
+        else:
+            missing = [n for n in singles if want & env[n] and not (got or 0) & env[n]]
+            extra = [n for n in singles if (got or 0) & env[n] and not want & env[n]]
+            rr.fail(c.qual, f"PeriodUnits.{name} = {got}: missing {missing}, unexpected {extra} (documented union is {want})", f"{c.mod.rel}:{c.node.lineno}")
+    return rr
